@@ -48,6 +48,7 @@ func (fr *Frame) execInstr(ins ssa.Instruction, c *blockCtx) {
 	case *ssa.Alloc:
 		obj := g.newObj()
 		t := fr.define(ins, Term{obj, SRef})
+		g.freshNames[t.S] = true
 		g.zeroInit(c.st, t.S, ins.Type().Underlying().(*types.Pointer).Elem())
 	case *ssa.FieldAddr:
 		x := fr.val(ins.X)
@@ -128,6 +129,7 @@ func (fr *Frame) execInstr(ins ssa.Instruction, c *blockCtx) {
 		n := fr.val(ins.Len)
 		cp := fr.val(ins.Cap)
 		obj := g.constFor("arr", Term{g.newObj(), SRef})
+		g.freshNames[obj.S] = true
 		fr.safety("makeslice", c.reach, fmt.Sprintf("(and (<= 0 %s) (<= %s %s))", n.S, n.S, cp.S), ins)
 		fr.define(ins, Term{fmt.Sprintf("(mkSlice %s 0 %s %s)", obj.S, n.S, cp.S), SSlice})
 		et := ins.Type().Underlying().(*types.Slice).Elem()
